@@ -19,7 +19,7 @@ SYMS = ['"', "'", "\\", "\n", "é", "a", " ", "#", '"""', "'''", "U", "x", "\u20
 NAMES = {'"': "dq", "'": "sq", "\\": "bs", "\n": "nl", "é": "eacute", "a": "a", " ": "sp", "#": "hash", '"""': "dq3", "'''": "sq3", "U": "U", "x": "x", "\u2028": "ls", "\x0c": "ff"}
 FWS = ["base", "pydantic", "sqlmodel", "attrs", "dataclasses"]
 BLANKS = ["", " ", "\n\n", "\t", " \n \t "]
-SAMPLES = [{"id": 1, "name": "x", "tags": ["a"]}, {"id": 2, "name": "y", "tags": []}]
+SAMPLES = [{"id": 1, "name": "x", "tags": ["a"], "owner": {"n": 1, "site": {"u": "v"}}}, {"id": 2, "name": "y", "tags": [], "owner": {"n": 2, "site": {"u": "w"}}}]
 SAMPLES_NOIMPORT = [{"id": 1, "n": 2}]
 
 
@@ -41,7 +41,7 @@ def _cases(tier):
     for fw in FWS:
         for pre in ("import os\nX = os.sep", "class Helper:\n    pass", "# a\n# b\n\nY = [\n    1,\n]", "    # indented comment", "X = 1\n\n\n\nZ = 2",
                     "X = '{{ y }}'  # {% if z %}", "def f():\n    return {\n        'k': 1,\n    }", "from typing import Tuple\nT = Tuple[int, int]",
-                    "X = 1  \n\n# trailing spaces above", "\tY = 2"):
+                    "X = 1  \n\n# trailing spaces above", "\tY = 2", "X = 1\n    \nY = 2", 'S = """a\n  \n\t\nb"""', "# 100% sure\nP = '%d items' % 3"):
             yield {"pre": pre, "place": "literal_preamble", "fw": fw, "data": "std"}
             yield {"pre": pre, "place": "literal_preamble", "fw": fw, "data": "noimport"}
             yield {"pre": pre, "place": "literal_preamble", "fw": fw, "data": "two_models"}
